@@ -156,12 +156,8 @@ def realise(prob, family, pseed):
     dk, db = [], []
     for mu in mus:
         j = 2 ** int(rs.randint(0, 3))
-        if family == "lb":
-            dk.append(mu.denominator * j)
-            db.append(mu.numerator * j)
-        else:                                         # mu = 1/omega^2 = den/num of omega^2
-            dk.append(mu.denominator * j)
-            db.append(mu.numerator * j)
+        dk.append(mu.denominator * j)                 # mu = db / dk  (lb: -1/lambda, freq: 1/omega^2)
+        db.append(mu.numerator * j)
     P = np.zeros((g + r, g + r))
     P[:g, :g] = _unimodular(rs, g)
     if r:
@@ -361,6 +357,34 @@ def make_event(eid, impl, prob, o, K, B, gen, panel=None, want_raw=False):
     if want_raw:
         return e, vals, vecs
     return e
+
+
+_FORK = {}
+
+
+def _lattice_chunk(rng):
+    impl, family, tasks = _FORK["impl"], _FORK["family"], _FORK["tasks"]
+    out = []
+    for (eid, prob, opts, pseed, gid) in tasks[rng[0]:rng[1]]:
+        K, B = realise(prob, family, pseed)
+        gen = dict(kind="lattice", family=family, pseed=pseed, group="L%d" % gid,
+                   p=dict(n=prob["n"], cls=prob["cls"], sp=[frac_pair(x) for x in prob["sp"]], s=frac_pair(prob["s"])))
+        out.append(make_event(eid, impl, prob, opts, K, B, gen))
+    return out
+
+
+def lattice_events(impl, family, tasks, nproc=8):
+    """replay the lattice cases through the real wrappers; forked workers for large lattices (the calls are
+    independent: fresh matrices per case, one re-used Panel / ConeCyl instance per worker)"""
+    _FORK.update(impl=impl, family=family, tasks=tasks)
+    if len(tasks) < 6000:
+        return _lattice_chunk((0, len(tasks)))
+    import multiprocessing as mp
+    step = 500
+    ranges = [(a, min(a + step, len(tasks))) for a in range(0, len(tasks), step)]
+    with mp.get_context("fork").Pool(nproc) as pool:
+        parts = pool.map(_lattice_chunk, ranges)
+    return [e for part in parts for e in part]
 
 
 def attach_peers(events):
@@ -630,6 +654,7 @@ def run_family(prop, family, tier, seed, build, impl=None, skip_mc=False, max_la
         cases = random.Random(seed).sample(cases, max_lattice)
     pcache = {}
     spec_only = 0
+    tasks = []
     for (p, o) in cases:
         if len(p["zs"]):
             spec_only += 1              # a prescribed zero column sum is exercised at model level only
@@ -640,11 +665,9 @@ def run_family(prop, family, tier, seed, build, impl=None, skip_mc=False, max_la
         if key not in pcache:
             pcache[key] = (len(pcache), (seed * 7919 + len(pcache) * 104729) % (2 ** 31))
         gid, pseed = pcache[key]
-        K, B = realise(prob, family, pseed)
-        gen = dict(kind="lattice", family=family, pseed=pseed, group="L%d" % gid,
-                   p=dict(n=prob["n"], cls=prob["cls"], sp=[frac_pair(x) for x in prob["sp"]], s=frac_pair(prob["s"])))
-        events.append(make_event(len(events), impl, prob, opts, K, B, gen))
+        tasks.append((len(tasks), prob, opts, pseed, gid))
         rep.nontrivial(("A", key, opts["api"], opts["sparse"], opts["num"], opts["sort"], opts["reduced"]))
+    events = lattice_events(impl, family, tasks)
     n_lattice = len(events)
     t_a = time.time() - t0 - t_mc
 
@@ -692,7 +715,6 @@ def run_family(prop, family, tier, seed, build, impl=None, skip_mc=False, max_la
                 rep.nontrivial(("B", g["group"], o["api"], o["sparse"], o["num"], o["sort"], o["reduced"]))
 
     def opts_for(n, with_panel):
-        apis = ["lb"] if family == "lb" else ["freq"]
         out = []
         two = [Fraction(1), Fraction(2), Fraction(1, 2)]
         if family == "lb":
